@@ -69,7 +69,7 @@ func genC05(t *rapid.T) *C05Case {
 		})
 	})
 	c := &C05Case{D: d, Env: map[string]string{}}
-	c.Mode = rapid.SampledFrom([]string{"ini-normal-before", "ini-asdefaults-before", "ini-asdefaults-after"}).Draw(t, "mode")
+	c.Mode = rapid.SampledFrom([]string{"ini-normal-before", "ini-asdefaults-before", "ini-asdefaults-after", "ini-asdefaults-before-and-after"}).Draw(t, "mode")
 	valFor := func(o *OptInfo, label string) string {
 		if len(o.Choices) > 0 {
 			return rapid.SampledFrom(o.Choices).Draw(t, label)
@@ -211,6 +211,12 @@ func c05Oracle(c *C05Case) string {
 			} else {
 				ierr = ip.Parse(strings.NewReader(text))
 				_, perr = b.P.ParseArgs(append([]string{}, c.Args...))
+				if c.Mode == "ini-asdefaults-before-and-after" && ierr == nil && perr == nil {
+					// the same defaults file read once more after the command
+					// line: it still ranks below what the command line gave, and
+					// options it already provided are not provided twice
+					ierr = ip.Parse(strings.NewReader(text))
+				}
 			}
 		})
 	})
